@@ -137,6 +137,8 @@ fn maybe_exempt_soft_family(seed: u64, sc: &mut Scenario, one_in: usize) {
 /// On a fraction of the seeds the scenario's world is replaced by a forest of independent small worlds.
 fn maybe_forest(seed: u64, sc: &mut Scenario, params: &GenParams, one_in: usize, tier: Tier) {
     let mut r = Rng::stream(seed, "forest");
+    // forests are expensive: the quick tier uses a third of the thorough tier's share
+    let one_in = if tier == Tier::Quick { one_in * 3 } else { one_in };
     if !r.chance(1, one_in) {
         return;
     }
@@ -295,6 +297,11 @@ impl Property for C02 {
     fn judge(&self, sc: &Scenario) -> Verdict {
         let rec = execute(sc);
         let mut v = base_verdict(sc, &rec);
+        *v.probes.entry("online_states_checked").or_insert(0) += rec.online_states;
+        if let Some(e) = rec.online_violations.first() {
+            v.evaluated = true;
+            v.violate("internal:unjustified-assignment", format!("while solving: {e}"));
+        }
         for (i, o) in rec.outcomes.iter().enumerate() {
             let p = hard_only(&sc.solves[i].problem);
             if !sc.solves[i].problem.soft.is_empty() {
@@ -753,6 +760,13 @@ impl Property for C05 {
     fn judge(&self, sc: &Scenario) -> Verdict {
         let rec = execute(sc);
         let mut v = base_verdict(sc, &rec);
+        *v.probes.entry("online_states_checked").or_insert(0) += rec.online_states;
+        if let Some(e) = rec.online_violations.first() {
+            if !rec.outcomes.iter().any(|o| o.is_crash()) {
+                v.evaluated = true;
+                v.violate("internal:unjustified-assignment", format!("while solving: {e}"));
+            }
+        }
         for (i, o) in rec.outcomes.iter().enumerate() {
             match o {
                 Outcome::Ok(s) => {
